@@ -42,7 +42,7 @@ extern "C" void harness_finish(void) {
   RuleInfo& S = newRuleInfo(80, 0); g_S = &S; S.state = RuleInfo::StateKind::IsScanning; S.setPendingScanRecord(new BuildEngineImpl::RuleScanRecord);
   // R: computing; one requested dependency already recorded (key 32)
   RuleInfo& R = newRuleInfo(16, nondet_u64()); g_R = &R;
-  uint64_t B = nondet_u64(); VF_ASSUME(B < E); R.result.builtAt = B; R.result.computedAt = nondet_u64(); VF_ASSUME(R.result.computedAt <= B);
+  uint64_t B = nondet_u64(); VF_ASSUME(B < E); R.result.builtAt = B; R.result.computedAt = nondet_u64(); VF_ASSUME(B == 0 ? R.result.computedAt < E : R.result.computedAt <= B);   // Inv(i)
   R.result.value.reserve(2); R.result.value.push_back(nondet_u8());
   R.result.dependencies.keys.reserve(4); R.result.dependencies.flags.reserve(4);
   bool oo0 = nondet_bool(), su0 = nondet_bool(); KeyID k32; k32._value = 32; R.result.dependencies.push_back(k32, oo0, su0);
